@@ -9,7 +9,7 @@
 (*   - TLC model checking enumerates the full cross product of the profile's domains, and                   *)
 (*   - TLC -simulate draws uniformly random configurations from the "wide" profile (depth = NDims).         *)
 (* Every completed configuration is printed (PrintT <<"CFG", ...>>) and replayed on the real code.          *)
-EXTENDS Integers, Sequences, FiniteSets, TLC, SequencesExt
+EXTENDS Integers, Sequences, FiniteSets, TLC, SequencesExt, FrameSetters
 
 CONSTANT Profile          \* "quick" | "thorough" | "orders" | "orders_thorough" | "wide"
 
@@ -156,6 +156,17 @@ Cfg(s) ==
   LET ex == Extras(s[4], s) IN
   << s[1][1], s[1][2], s[12], Sorted(ex[3]), Sorted(ex[4]), Sorted(ex[5]), Ops(s) >>
 (* field order of the printed tuple (checks/c07.py zips it with these names):  env cc nargs cp_vec cp_k cp_mm ops *)
+
+(* DESIGN CHECK (every enumerated sequence, i.e. every order and every set/update shape): by the setters' contract  *)
+(* (FrameSetters!EffOf) the generated call sequence promises exactly the values of the value dimensions.           *)
+OpRec(t) == [op |-> t[1], a |-> t[2], g |-> t[3], ids |-> t[4]]
+Consistent ==
+  Len(c) = NDims =>
+    LET ops == Ops(c)
+        e == EffOf([j \in 1..Len(ops) |-> OpRec(ops[j])])
+        ex == Extras(c[4], c)
+    IN /\ e.ls = c[5] /\ e.la = c[6] /\ e.cs = c[7] /\ e.ca = c[8] /\ e.fp = c[9] /\ e.calls = c[14]
+       /\ e.d = <<GpSet(c[2], c), VecSet(c[3], c), ex[1], ex[2]>>
 
 Export == Len(c) = NDims => PrintT(<<"CFG", Cfg(c)>>)
 =============================================================================
